@@ -185,7 +185,14 @@ func c08Scenarios(tier string) []*Scenario {
 				}
 				x.Vals["err2"] = closer.Close()
 				t := root.Tagged(map[string]string{"z": "1"})
-				x.Vals["noop"] = tally.VerifIsNoop(t)
+				inert := tally.VerifIsNoop(t)
+				// derivations that add nothing to the identity of the (closed) scope they start from are inert too
+				for _, e := range []tally.Scope{root.Tagged(nil), root.Tagged(map[string]string{}), root.SubScope(""), s1.Tagged(nil), s2.Tagged(map[string]string{}), s2.SubScope("")} {
+					inert = inert && tally.VerifIsNoop(e)
+					e.Timer("late").Record(1)
+					e.Counter("late").Inc(1)
+				}
+				x.Vals["noop"] = inert
 				c1.Inc(8)
 				g.Update(9)
 				t.Counter("q").Inc(1)
